@@ -3,24 +3,23 @@ import json
 import os
 import vlib
 
-PROPS = ['Rangers.Props.C07', 'Rangers.Props.C07Facts']
+PROPS = ['Rangers.Props.C07', 'Rangers.Props.C07Rlp', 'Rangers.Props.C07Conv', 'Rangers.Props.C07Secp', 'Rangers.Props.C07Facts', 'Rangers.Props.C07Admit']
 DRIVERS = ['C07']
 META = dict(
     level='proof',
     technique='Lean 4 theorems about an executable model of VerifyTransaction (crypto primitives as parameters) '
               '+ differential correspondence against the real TxPool.VerifyTransaction / eth_tx code with crypto oracle fields',
     level_text='proof',
-    level_note='36 Lean theorems about the executable model of VerifyTransaction that the driver runs; crypto '
+    level_note='58 Lean theorems about the executable model of VerifyTransaction that the driver runs; crypto '
                'primitives are parameters (soundness ends in explicit collision / second-signature witnesses); '
                'two clauses are false of the code and proved partial with counterexamples (unprotected v=27/28 '
                'payloads, recovery-id alias of Sign) and recorded as known findings; one defect fixed '
                '(non-canonical payload).',
     trusted_base=['Lean 4 kernel', 'Go harness harness/cmd/c07 (oracle tokens, generators)',
-                  'SHA-256, Keccak-256, secp256k1 recover/verify (cgo) are parameters of the model, sampled only'],
+                  'SHA-256, Keccak-256 and the curve operations of libsecp256k1 (point recovery, ECDSA equation) are parameters of the model, sampled only; the range / low-s / recovery-id logic around them is modelled', 'C08 RLP model and theorems (payload codec), C18 Decimal and C09 Json models (ConvertTx renderings)'],
     assumptions=['the model equals the code only as far as the correspondence run and the T-gen shape facts establish',
                  'SHA-256 / Keccak-256 collision resistance and ECDSA unforgeability are never assumed: they appear as '
                  'disjuncts (collision witness, second valid signature for the same address)',
-                 'libsecp256k1 rejects high-s signatures in verify (sampled every run, not proved)',
                  'hooks/c07 fix commit (canonical payload check in verifyETHTx) is applied to the tree under check'],
     rule='distinct vt/conv op lines sent to both implementation and model whose model answer is not bad-op',
     explanation='native: accepted <=> chain id is the chain\'s, hash = SHA-256 of the 8-field concatenation, Sign recovers a '
@@ -37,7 +36,16 @@ def gen(ctx):
     if rc != 0 or 'namespace Rangers.Generated.C07' not in so:
         return dict(ok=False, error='c07facts failed: ' + (se or so)[-800:])
     changed = vlib.write_if_changed(os.path.join(vlib.LEAN, 'Rangers', 'Generated', 'C07Facts.lean'), so)
-    return dict(ok=True, changed=changed, bytes=len(so))
+    # admission paths: every call site that can put a transaction into the pool, whole src/ tree
+    rc, so2, se2 = vlib.go_run_gen(ctx, 'c07admit', ['repo=' + ctx.repo])
+    if rc != 0 or 'admissionSites' not in so2:
+        return dict(ok=False, error='c07admit failed: ' + (se2 or so2)[-800:])
+    changed = vlib.write_if_changed(os.path.join(vlib.LEAN, 'Rangers', 'Generated', 'C07Admit.lean'), so2) or changed
+    # the reflected RLP shape of eth_tx.txdata (C08's translator) is a fact C07 leans on as well
+    g8 = vlib.load_plugin('C08').gen(ctx)
+    if not g8.get('ok'):
+        return dict(ok=False, error='C08 type reflection failed: ' + str(g8.get('error'))[:600])
+    return dict(ok=True, changed=changed, bytes=len(so), c08_types=True)
 
 
 def _n(ctx):
